@@ -90,7 +90,7 @@ macro_rules! forms {
                 }
             }
             // ---------------- scalar forms
-            for s in [0.75 as F, -1.5, 4.0] {
+            for s in [0.75 as F, -1.5, 4.0, 3.0] {
                 let lifted: D = D::from(s);
                 let checks: Vec<(&str, D, D, bool)> = vec![
                     ("a + f", a.clone() + s, &a + &lifted, true),
@@ -112,6 +112,16 @@ macro_rules! forms {
                     let bad = if exact { same(l, &g, &w) } else { close(l, &g, &w, 16.0) };
                     if let Some(i) = bad {
                         report($st, name, i, &g, &w, vec![pa]);
+                    }
+                }
+                // the owned and the compound-assignment form of the scalar division are the same
+                // computation: bit-equal, whatever rounding a reformulation (x * (1/f)) would add
+                {
+                    $st.evaluations += 1;
+                    let owned = pt(&(a.clone() / s));
+                    let assigned = pt(&{ let mut r = a.clone(); r /= s; r });
+                    if let Some(i) = same(l, &owned, &assigned) {
+                        report($st, "a / f vs a /= f", i, &owned, &assigned, vec![pa]);
                     }
                 }
                 // lifting: From<F> is a constant
@@ -373,7 +383,7 @@ fn main() {
         mode: cli.mode,
         seed: cli.seed,
         start,
-        rule: "for every concrete type (scalar types over both widths, static and dynamic vector types incl. length 0, nested types): the 16 owned/borrowed forms of + - * /, 2 of neg, 4 dual and 8 scalar compound/plain operators, Inv, Sum/Product over owned and borrowed iterators of length 0..19, default mul_add, From<F>, the 14 FromPrimitive constructors, Zero, One (also set_zero / set_one), 19 FloatConst constants - each against the canonical form `&a op &b` with scalars lifted by from, on dyadic operands x every presence pattern x 5 real parts (among them exactly 0 and exactly 1). Non-trivial = a form applied to operands with non-zero parts.".into(),
+        rule: "for every concrete type (scalar types over both widths, static and dynamic vector types incl. length 0, nested types): the 16 owned/borrowed forms of + - * /, 2 of neg, 4 dual and 8 scalar compound/plain operators, Inv, Sum/Product over owned and borrowed iterators of length 0..19, default mul_add, From<F>, the 14 FromPrimitive constructors, Zero, One (also set_zero / set_one), 19 FloatConst constants - each against the canonical form `&a op &b` with scalars lifted by from (scalars 0.75, -1.5, 4, 3; `a / f` and `a /= f` additionally bit-equal to each other), on dyadic operands x every presence pattern x 5 real parts (among them exactly 0 and exactly 1). Non-trivial = a form applied to operands with non-zero parts.".into(),
         assumptions: vec!["additive, forwarding and multiplicative-scalar forms: numerically equal in every part; scalar division and inv vs 1/a: within 16 u".into()],
         extra: json!({}),
         exhaustive: true,
